@@ -76,6 +76,12 @@ def generate(rng, tier, mode="default"):
                     prev = o.split()[0]
                 if not okp: continue
                 out.append([hdr(max(size1, 1)), *fill, "z0 = h0 h1 zip"] + ["z0 " + o for o in w] + ["z0 next", "END"])
+    # (c2) filter_mut / filter on every keep/drop pattern of length <= 7 (8 thorough): every cluster shape of the
+    #      backwards scan (leading, trailing, interior runs of rejected elements, single survivors)
+    for n in range(0, 8 if quick else 9):
+        for bits in range(2 ** n):
+            fill = ["h0 add %d" % (2 * (10 + k) + ((bits >> k) & 1)) for k in range(n)]
+            out.append([hdr(max(n, 1))] + fill + ["h1 = h0 filter", "h0 filter_mut", "h0 size", "h0 add 99", "END"])
     # (e2) zip iterator add under every single refusal: one array exactly full, the other with room (both orders),
     #      so that "grow both first, insert into neither on failure" is exercised
     for full_first in (0, 1):
